@@ -65,7 +65,8 @@ def base_env(pid, tier, seed):
 
 def replay_once(binpath, pid, tier, seed, path, extra_env=None, timeout=1800):
     env = base_env(pid, tier, seed)
-    env['VERIF_REPLAY_DIR'] = os.path.join(VERIF, 'replays', pid)
+    env['VERIF_REPLAY_DIR'] = os.path.join(B.build_root() if B.REPO != '/repo' else VERIF, 'replays', pid)
+    os.makedirs(env['VERIF_REPLAY_DIR'], exist_ok=True)
     env.pop('VERIF_STATS', None)
     if extra_env:
         env.update(extra_env)
@@ -109,7 +110,8 @@ def run_property(prop, tier, seed, replay=None):
     pid = prop.pid
     t0 = time.time()
     tix = 0 if tier == 'quick' else 1
-    replays_dir = os.path.join(VERIF, 'replays', pid)
+    scratch = B.REPO != '/repo'   # mutation self-test against a scratch copy: keep /verif/evidence and /verif/replays untouched
+    replays_dir = os.path.join(B.build_root() if scratch else VERIF, 'replays', pid)
     os.makedirs(replays_dir, exist_ok=True)
     work = os.path.join(B.build_root(), 'work', pid)
     shutil.rmtree(work, ignore_errors=True)
@@ -339,8 +341,9 @@ def run_property(prop, tier, seed, replay=None):
     )
     if merged['exhaustive'] and all(merged['exhaustive'].values()) and inconclusive == 0:
         ev['coverage']['exhaustive_note'] = 'the sub-runs listed under exhaustive_subruns enumerated their stated finite spaces completely; the random sub-runs are samples'
-    os.makedirs(os.path.join(VERIF, 'evidence'), exist_ok=True)
-    with open(os.path.join(VERIF, 'evidence', pid + '.json'), 'w') as f:
+    evdir = os.path.join(B.build_root() if scratch else VERIF, 'evidence')
+    os.makedirs(evdir, exist_ok=True)
+    with open(os.path.join(evdir, pid + '.json'), 'w') as f:
         json.dump(ev, f, indent=1, sort_keys=False)
         f.write('\n')
     for key, verdict, path in out_viol:
